@@ -114,6 +114,43 @@ def floors(acc):
                                   "version script for SYMVER_FLOOR=%s does not export %s@%s" % (want, sym, want), None)
 
 
+def configure_keeps_compat(acc):
+    """configure drops the whole compatibility ABI (soname libcrypt.so.2, no GLIBC_* versions) unless the traditional
+    DES hash is enabled; it decides that with a shell `case` over the output of expand-selected-hashes.  Run exactly
+    that pair - the script, then configure.ac's own pattern - for selections with and without descrypt."""
+    from . import C19
+    with open(os.path.join(build.REPO, "configure.ac")) as f:
+        t = f.read()
+    m = re.search(r'case "\$hashes_enabled" in\s*\n\s*([^\s)]+)\)', t)
+    if not m:
+        acc.inconc("configure.ac: the case over $hashes_enabled was not found")
+        return
+    pattern = m.group(1)
+    scr = os.path.join(build.REPO, "build-aux", "scripts")
+    sels = ["all", "glibc", "descrypt", "osx", "descrypt,sha512crypt", "freebsd", "solaris", "strong", "alt", "fedora",
+            "bigcrypt,yescrypt", "descrypt,bcrypt,yescrypt", "sunmd5,descrypt", "nt,descrypt", "yescrypt"]
+    for sel in sels:
+        p = subprocess.run(["perl", "-I", scr, os.path.join(scr, "expand-selected-hashes"),
+                            os.path.join(build.REPO, "lib", "hashes.conf"), sel],
+                           stdout=subprocess.PIPE, stderr=subprocess.PIPE, text=True, env=dict(os.environ, LC_ALL="C"))
+        out = p.stdout.strip()
+        q = subprocess.run(["sh", "-c", 'case "$1" in %s) echo keep;; *) echo drop;; esac' % pattern, "sh", out],
+                           stdout=subprocess.PIPE, text=True)
+        names = set()
+        for w in sel.split(","):
+            names |= set(gen.METHODS if w == "all" else (C19.independent_group(w) or [w]))
+        want = "keep" if "descrypt" in names else "drop"
+        acc.count("evaluations")
+        acc.count("configure_decisions")
+        acc.cls(("configure-compat", sel, want))
+        if p.returncode != 0 or q.stdout.strip() != want:
+            acc.violation("%s/configure-drops-compat-abi/%s" % (PID, sel.replace(",", "+")),
+                          "--enable-hashes=%s: expand-selected-hashes prints %r and configure.ac's pattern %s decides %r; "
+                          "descrypt %s selected, so the compatibility ABI must be %s" % (
+                              sel, out, pattern, q.stdout.strip(), "is" if want == "keep" else "is not",
+                              "kept" if want == "keep" else "dropped"), None)
+
+
 def build_abi(abi):
     """shared library as configure --enable-obsolete-api=<abi> builds it -> (abi, {(sym, ver): @|@@} or None, error)"""
     tree = build.Tree()
@@ -252,6 +289,7 @@ def run(tier):
                               "%s%s%s became %s%s%s" % (sym, dflt, ver, sym, syms[(sym, ver)], ver), None)
     # (2d) other platforms: the symbol-version floor configure would choose
     floors(acc)
+    configure_keeps_compat(acc)
     # (3) old client
     exe = build.sys_program("vabi.c", "vabi-old-client", libs="-L/lib/x86_64-linux-gnu -l:libcrypt.so.1")
     lines = client_workload(run_.seed, tier)
@@ -272,6 +310,7 @@ def run(tier):
         "golden_symbol_version_pairs_checked": len(gold),
         "obsolete_api_flavours_built": sorted(ABI_FLAVOURS),
         "host_platform_floors_checked": int(a.n.get("floors_checked", 0)),
+        "configure_compat_decisions_checked": int(a.n.get("configure_decisions", 0)),
         "flavour_symbol_version_pairs_checked": int(a.n.get("flavour_pairs", 0)),
         "symbol_version_pairs": sorted("%s%s%s" % (s, d, v) for (s, v), d in rel.items()),
         "client_transcript_lines_compared": int(a.n.get("lines_compared", 0)),
